@@ -556,17 +556,27 @@ class Interp:
             return SStr(z3.Concat(TStr.unwrap(a), TStr.unwrap(b)))
         if ta in num and tb in num:
             if TReal in (ta, tb) or op == 'Div':
+                # float arithmetic: the exact real result, rounded by an
+                # UNINTERPRETED rounding function fl (A2'): equalities that
+                # hold only in exact arithmetic are not provable
                 x, y = TReal.unwrap(a), TReal.unwrap(b)
+                fl = S.fl
                 if op == 'Add':
-                    return SReal(x + y)
+                    return SReal(fl(x + y))
                 if op == 'Sub':
-                    return SReal(x - y)
+                    return SReal(fl(x - y))
                 if op == 'Mult':
-                    return SReal(x * y)
+                    return SReal(fl(x * y))
                 if op == 'Div':
                     if not self.spec and self.branch(y == 0):
                         self.raise_('ZeroDivisionError', node=node)
-                    return SReal(x / y)
+                    return SReal(fl(x / y))
+                if op in ('FloorDiv', 'Mod'):
+                    if not self.spec and self.branch(y == 0):
+                        self.raise_('ZeroDivisionError', node=node)
+                    q = z3.ToReal(z3.ToInt(x / y))
+                    return SReal(fl(q) if op == 'FloorDiv'
+                                 else fl(x - q * y))
                 raise Unsupported('real %s' % op)
             x, y = TInt.unwrap(a), TInt.unwrap(b)
             if op == 'Add':
